@@ -86,7 +86,7 @@ def make_bad_hash(tag):
         raise RuntimeError(f"hash of {tag} fails")
     return bad_hash
 
-def body(t, src, deps, prods, beh, ret=None):
+def body(t, src, deps, prods, beh, ret=None, dirs=()):
     """deps: list of Paths; prods: list of Paths (index = product index).
     ret: None = write products; otherwise the names of the products whose contents are *returned*."""
     log(f"S {t}")
@@ -99,6 +99,10 @@ def body(t, src, deps, prods, beh, ret=None):
         log(f"X {t}")
         raise SystemExit(3)
     skip = int(beh.split(":")[1]) if beh.startswith("omit:") else None
+    for d in dirs:      # directory-pattern products (optional spec field "dirprod"): two files per directory
+        Path(d).mkdir(parents=True, exist_ok=True)
+        for k in range(2):
+            (Path(d) / f"{k}.txt").write_text(str(F(t, 100 + k, src, ds)))
     if ret is not None:
         vals = [str(F(t, i, src, ds)) for i in range(len(ret))]
         log(f"E {t}")
@@ -181,7 +185,7 @@ def render_module(spec, m: int, src_value=None) -> str:
         "from pathlib import Path",
         "from typing import Annotated",
         "import pytask",
-        "from pytask import Product, task, PathNode, PythonNode",
+        "from pytask import Product, task, PathNode, PythonNode, DirectoryNode",
         "import _verif_rt as rt",
         "DATA = Path(__file__).resolve().parent / 'data'",
         f"SRC = {module_content(spec, m) if src_value is None else src_value}",
@@ -247,6 +251,15 @@ def render_module(spec, m: int, src_value=None) -> str:
                 params.append(f"hv: Annotated[int, PythonNode(value={tid}, hash=rt.make_bad_hash('{tid}:hv'))]")
         else:
             params += [f"{nm}: Path = DATA / 'n{n}.txt'" for nm, n in zip(dep_names, deps)]
+        if t.get("hashed"):
+            # optional: a constant hashed Python value (tuple holding a str and a Path) as an additional tracked dependency
+            params.append(f"hv{tid}: Annotated[tuple, PythonNode(value=('k{tid}', {tid}, Path('v{tid}')), hash=True)]")
+        dir_names = []
+        if t.get("dirprod") and prods:
+            # optional: a DirectoryNode product next to the ordinary products; the argument name sorts before ("a") or
+            # after ("z") the ordinary product arguments, i.e. the provisional node precedes or follows them among the successors
+            dn = f"{t['dirprod']}_dir{tid}"
+            dir_names.append(dn)
         ret = None
         if style == "return" and prods and beh in ("ok", "early", "savefail", "sysexit"):
             # @task(produces=…): the RETURN value is stored in the product node(s)
@@ -273,6 +286,8 @@ def render_module(spec, m: int, src_value=None) -> str:
         else:
             params += [f"{nm}: Annotated[Path, Product] = DATA / 'n{n}.txt'" for nm, n in zip(prod_names, prods)]
             body_prods = "[" + ", ".join(prod_names) + "]"
+        for dn in dir_names:
+            params.append(f"{dn}: Annotated[Path, DirectoryNode(root_dir=DATA / 'dir{tid}', pattern='*.txt'), Product]")
         if setup_fault == "marker":
             L.append("@pytask.mark.skipif()")        # bad marker call: no condition given
         for mk in t.get("marks", []):
@@ -288,18 +303,21 @@ def render_module(spec, m: int, src_value=None) -> str:
                 L.append(f"@pytask.mark.{mk}")
         if deco_kwargs or style in ("kwargs", "return") or t.get("force_decorator"):
             L.append("@task(" + ", ".join(deco_kwargs) + ")")
+        if t.get("hashed") or dir_names:
+            params.insert(0, "*")                    # keyword-only: parameters without defaults may follow ones with defaults
         L.append(f"def {tname(tid)}({', '.join(params)}):")
         # the body of a load-fault task does not read the faulty dependency: were the function invoked in spite of the
         # failing load, it would run to completion (and the oracle would see a fired fault without a FAIL report)
         body_deps = [nm for nm, n in zip(dep_names, deps) if not (beh == "loadfail" and n == faulty_dep)]
+        dirs_arg = f", dirs=[{', '.join(dir_names)}]" if dir_names else ""
         if is_gen:
             kid = 50 + tid
-            L.append(f"    rt.body({tid}, SRC, [{', '.join(body_deps)}], {body_prods}, {body_beh!r}, ret=None)")
+            L.append(f"    rt.body({tid}, SRC, [{', '.join(body_deps)}], {body_prods}, {body_beh!r}, ret=None{dirs_arg})")
             L.append(f"    @task(name={tname(kid)!r})")
             L.append(f"    def _kid(produces: Path = DATA / 'n{7000 + tid}.txt'):")
             L.append(f"        return rt.body({kid}, SRC, [], [produces], 'ok', ret=None)")
         else:
-            L.append(f"    return rt.body({tid}, SRC, [{', '.join(body_deps)}], {body_prods}, {body_beh!r}, ret={ret!r})")
+            L.append(f"    return rt.body({tid}, SRC, [{', '.join(body_deps)}], {body_prods}, {body_beh!r}, ret={ret!r}{dirs_arg})")
         L.append("")
     return "\n".join(L) + "\n"
 
@@ -330,7 +348,13 @@ def materialise(root: Path, spec, clock: Clock | None = None):
     (root / "data").mkdir(exist_ok=True)
     for m in sorted({t["module"] for t in spec["tasks"]}):
         write_file(module_path(root, m), render_module(spec, m), clock)
+    links = {int(x) for x in spec.get("links", [])}   # optional: input nodes that are symbolic links; edits go through to the target
     for n, c in spec.get("inputs", {}).items():
+        if int(n) in links:
+            target = root / "data" / "real" / f"n{int(n)}.txt"
+            target.parent.mkdir(parents=True, exist_ok=True)
+            if not node_path(root, int(n)).is_symlink():
+                node_path(root, int(n)).symlink_to(target)
         write_file(node_path(root, int(n)), str(c), clock)
     for name, text in spec.get("extra_modules", {}).items():   # optional: broken task modules (C08 campaign)
         write_file(root / name, text, clock)
